@@ -199,6 +199,13 @@ func TestC12_Patches(t *testing.T) {
 			if err != nil {
 				t.Fatalf("C12 harness: %v", err)
 			}
+			if rapid.Bool().Draw(t, "plainDecoding") {
+				// decoded the way the parser decodes the patches of a delta (plain JSON decoding into the patch type)
+				lps = nil
+				if err := json.Unmarshal([]byte(refJCS(vals)), &lps); err != nil {
+					t.Fatalf("C12 harness: %v", err)
+				}
+			}
 			in := snap(fmt.Sprintf("input document of call %d", s), cur)
 			var psnaps []snapshot
 			for i, lp := range lps {
